@@ -17,7 +17,7 @@ pub const META_C06: PropMeta = PropMeta {
 
 pub const META_C07: PropMeta = PropMeta {
     level: "exploration",
-    rule: "same input families as C06, restricted/weighted to size, largesize, count, length, offset and version fields (zero, tiny and huge values at every nesting level). Oracle per call, from an operation-counting stream with a hard budget: open calls (read_header / read_fragment_header) must stay within 64*n + 65536 stream operations and bytes (a loop that does not consume input exhausts every finite budget and is cut off deterministically); every later call within 64 operations and n + sample size + 64 bytes; thread CPU time of any call <= 1 s for these inputs (n <= 200 KiB; normal: microseconds), confirmed by a second execution. A worker that stops making progress is killed by the supervisor and the case re-confirmed alone. Non-trivial = a size/count/length/offset/version field holds a value that is not its true value and the parser performed >= 4 operations. Distinct = content hash.",
+    rule: "same input families as C06, restricted/weighted to size, largesize, count, length, offset and version fields (zero, tiny and huge values at every nesting level). Oracle per call, from an operation-counting stream with a hard budget: open calls (read_header / read_fragment_header) must stay within 24*n + 65536 stream operations and bytes (a loop that does not consume input exhausts every finite budget and is cut off deterministically); every later call within 64 operations and n + sample size + 64 bytes; thread CPU time of any call <= 1 s for these inputs (n <= 200 KiB; normal: microseconds), confirmed by a second execution. A worker that stops making progress is killed by the supervisor and the case re-confirmed alone. Non-trivial = a size/count/length/offset/version field holds a value that is not its true value and the parser performed >= 4 operations. Distinct = content hash.",
     assumptions: &["CPU-linearity is only a blow-up detector (>= 10^5 x normal cost)"],
 };
 
@@ -172,14 +172,14 @@ fn observe(ctx: &mut Ctx, case: &AdvCase, ex: &Exercise, nontrivial_kinds: &[Fie
     upd(ctx, "max_total_alloc_seen", max_alloc_total);
 }
 
-pub fn run_adv(ctx: &mut Ctx, oracle: Oracle, weight: fn(FieldKind) -> u32, nt_kinds: &'static [FieldKind]) {
+pub fn run_adv(ctx: &mut Ctx, oracle: Oracle, weight: fn(FieldKind) -> u32, nt_kinds: &'static [FieldKind], chain_r: usize) {
     let ngen = ctx.pick(12usize, 60usize);
     let bases = Arc::new(adv::bases(ctx, ngen));
     let cx = adv::driver_context();
     ctx.extra.insert("base_files".into(), serde_json::json!(bases.iter().map(|b| format!("{}({}B,{} fields)", b.name, b.bytes.len(), b.fields.len())).collect::<Vec<_>>()));
     {
         let bases2 = bases.clone();
-        adv::run_enumerated(ctx, &bases, &weight, |ctx, case| {
+        adv::run_enumerated(ctx, &bases, &weight, chain_r, |ctx, case| {
             ctx.pre_case(case);
             let ex = driver::exercise(&case.bytes, &cx);
             observe(ctx, case, &ex, nt_kinds, &bases2[case.base]);
@@ -214,13 +214,13 @@ fn w_c08(k: FieldKind) -> u32 {
 }
 
 pub fn run_c06(ctx: &mut Ctx) {
-    run_adv(ctx, oracle_c06, w_all, &[]);
+    run_adv(ctx, oracle_c06, w_all, &[], 40);
 }
 pub fn run_c07(ctx: &mut Ctx) {
-    run_adv(ctx, oracle_c07, w_c07, &[FieldKind::Size, FieldKind::LargeSize, FieldKind::Count, FieldKind::Length, FieldKind::Offset, FieldKind::Version, FieldKind::Word]);
+    run_adv(ctx, oracle_c07, w_c07, &[FieldKind::Size, FieldKind::LargeSize, FieldKind::Count, FieldKind::Length, FieldKind::Offset, FieldKind::Version, FieldKind::Word], 6000);
 }
 pub fn run_c08(ctx: &mut Ctx) {
-    run_adv(ctx, oracle_c08, w_c08, &[FieldKind::Size, FieldKind::LargeSize, FieldKind::Count, FieldKind::Length, FieldKind::Word]);
+    run_adv(ctx, oracle_c08, w_c08, &[FieldKind::Size, FieldKind::LargeSize, FieldKind::Count, FieldKind::Length, FieldKind::Word], 40);
 }
 
 pub fn replay(ctx: &mut Ctx, _stage: &str, case: &Value) -> Check {
